@@ -751,11 +751,11 @@ def simple_contagion_rule(repo, rep):
             elif isinstance(v, ast.DictComp):
                 if spont:
                     ok = _key(v.key) == _key(v.generators[0].target) and _key(v.generators[0].iter) in ("G", "G.nodes()") \
-                        and _key(v.value).startswith("rf(G,%s," % _key(v.key))
+                        and _key(v.value) == "rf(G,%s,**spont_kwargs)" % _key(v.key)
                 else:
                     tg = v.generators[0].target
                     ok = isinstance(tg, ast.Tuple) and _key(v.key) == "(%s,%s)" % (_key(tg.elts[0]), _key(tg.elts[1])) \
-                        and _key(v.value).startswith("rf(G,%s,%s," % (_key(tg.elts[0]), _key(tg.elts[1])))
+                        and _key(v.value) == "rf(G,%s,%s,**nbr_kwargs)" % (_key(tg.elts[0]), _key(tg.elts[1]))
             else:
                 ok = False
             rep.ob("R11s", ok, "simple contagion: weight table of a %s transition is keyed by %s" % (
@@ -775,7 +775,7 @@ def simple_contagion_rule(repo, rep):
             if ok:
                 a, b = _key(key.elts[0]), _key(key.elts[1])
                 v = _key(dc.value)
-                ok = v.startswith("rf(G,%s,%s," % (a, b)) or v in ("G.adj[%s][%s][wl]" % (a, b), "G.adj[%s][%s][wl]" % (b, a),
+                ok = v == "rf(G,%s,%s,**nbr_kwargs)" % (a, b) or v in ("G.adj[%s][%s][wl]" % (a, b), "G.adj[%s][%s][wl]" % (b, a),
                                                                   "G.edges[%s,%s][wl]" % (a, b))
                 und = any((not pol) and _key(fx) == "nx.is_directed(G)" for fx, pol in c.facts) or \
                     any((not pol) and _key(fx) == "G.is_directed()" for fx, pol in c.facts)
